@@ -1,7 +1,7 @@
 SPECIFICATION Spec
-CONSTANTS MaxLen = 4
-EmitMod = 8
+CONSTANTS MaxLen = 3
+EmitMod = 1
 Emit = TRUE
-Alphabet <- AlphaThorough
+Alphabet <- AlphaQuick
 INVARIANTS TypeOK DesignRefinesInfoset EmitCase
 CHECK_DEADLOCK FALSE
